@@ -387,3 +387,19 @@ func splitChain(s string) []string {
 	}
 	return append(res, cur)
 }
+
+// Instrument inserts a call `<name>(<site>)` before every statement of every statement list and
+// returns the number of sites. Used by C04 to sample the operand stack depth between statements.
+func Instrument(p *Program, name string) int {
+	site := 0
+	for _, l := range stmtLists(p) {
+		var out []Stmt
+		for _, s := range *l {
+			site++
+			out = append(out, &ExprStmt{X: &Call{F: &Ident{Name: name}, Args: []Expr{&IntLit{V: int64(site)}}}})
+			out = append(out, s)
+		}
+		*l = out
+	}
+	return site
+}
